@@ -19,7 +19,16 @@
 //
 // result format: numbers are integers n meaning n * 2^-24 (llround(x * 2^24)) in hex; the comparison
 // (checks/c10.py) allows +-2 units because sin/cos of doubles are inexact.
-// P lines compare with tolerance 1e-9 * max(1, largest |coordinate| of the shape).
+// P lines compare with tolerance 1e-9 * max(1, largest |coordinate| of the shape).  Paths whose widths are not
+// meant to scale (scale_width = false under a factor != 1) are compared on their centre lines (element_center),
+// RobustPaths with more than one sub-path on spine positions, labels on their origins, references on get_polygons.
+// finding keys (P FAIL <key>):
+//   FlexPath::transform:x_reflection+offset        F7  offsets not negated under x_reflection
+//   FlexPath::transform:negative-magnification     F7  offsets / half widths / extensions multiplied by the signed magnification
+//   element-transform:repetition-ignored           F8  the attached repetition is not transformed
+//   FlexPath::scale:negative-factor+end_extensions     end_extensions multiplied by the signed factor (extended ends retract)
+//   RobustPath::scale:negative-factor+end_extensions   the same in RobustPath::simple_scale (scale and transform)
+//   <Kind>::<call|sequence>:outline-mismatch       anything else (none on the current tree)
 #include <algorithm>
 #include <cmath>
 #include <sstream>
